@@ -229,9 +229,9 @@ type e2eHarness struct {
 	counts  map[string]int
 	// deadlock oracle (deadlock.go)
 	led       *ledger
-	honestIDs map[string]bool // peers that answer every body request truthfully (possibly late) in every phase
-	dead      *deadState      // set by sync when it returns "deadlock"
-	directed  interface{}     // the directed scenario's spec and trace, if any (witness only)
+	honestIDs map[string]bool    // peers that answer every body request truthfully (possibly late) in every phase
+	dead      *deadState         // set by sync when it returns "deadlock"
+	directed  func() interface{} // the directed scenario's spec and trace, if any (witness only)
 }
 
 func newE2EHarness(c *kit.Ctx, sp e2eSpec, ch *chain, rec *recChain) *e2eHarness {
@@ -563,10 +563,14 @@ func (h *e2eHarness) sync(p *e2ePeer, cut time.Duration) (kind string, ok bool) 
 // reportDead reports the dead state found by sync.
 func (h *e2eHarness) reportDead(when string, outcomes []string) {
 	ds := h.dead
+	var directed interface{}
+	if h.directed != nil {
+		directed = h.directed()
+	}
 	h.c.Violation("e2e-deadlock:peers-busy-without-request",
 		fmt.Sprintf("%s: the body download can never continue: %d body tasks are queued (blocks %v), no request is in flight, no packet is waiting, every registered peer is flagged busy without owning a request (or lacks every queued block), and nothing is left to arrive - every request the fetcher issued reached its peer, every peer finished answering, every packet handed over was handled. Honest peer(s) %v answered every request truthfully, have the queued blocks and are never asked again. The state was found unchanged in %d consecutive samples; only the end of the Synchronise call can clear the flags.",
 			when, ds.Sched.Queued, ds.Sched.QueuedNumbers, ds.Parked, deadSamplesNeed),
-		map[string]interface{}{"spec": h.sp, "directed": h.directed, "sync_outcomes": outcomes, "dead_state": ds, "imported": h.rec.height(), "log_tail": logTail(e2eLogTail())})
+		map[string]interface{}{"spec": h.sp, "directed": directed, "sync_outcomes": outcomes, "dead_state": ds, "imported": h.rec.height(), "log_tail": logTail(e2eLogTail())})
 }
 
 // stallMon measures how badly this process is being starved (environment health, not an oracle):
@@ -786,6 +790,11 @@ func runE2ECase(c *kit.Ctx, id string) {
 		c.Max("max_e2e_insert_batch", int64(rec.maxCall))
 		c.Count("e2e_blocks_imported", rec.height()-sp.PreSynced)
 		c.Count("e2e_blocks_reimported_by_lower_origin", rec.overlap)
+		// what the downloader's trace log said about the honest peer's packets
+		pl := h.led.get(peerName(sp.Honest))
+		c.Count("e2e_honest_peer_packets_handled", int(pl.Handled))
+		c.Count("e2e_honest_peer_stale_deliveries", int(pl.Stale))
+		c.Count("e2e_honest_peer_answers_without_pending_request", int(pl.NoPending))
 		c.Sample(map[string]interface{}{"spec": sp, "sync_outcomes": outcomes, "imported": rec.height()})
 		if sig == "" {
 			return
